@@ -75,6 +75,25 @@ func checkoutFile(
 		return err
 	}
 	cachePath = filepath.Join(ch.dir, cachePath)
+	// A regular file that already holds the committed bytes (e.g. after
+	// a copy checkout or a copy commit) is already checked out; leave it be.
+	if status.WorkspaceFileStatus == fsutil.StatusRegularFile {
+		workFile, err := os.Open(workPath)
+		if err != nil {
+			return err
+		}
+		workChecksum, err := checksum.Checksum(workFile)
+		workFile.Close()
+		if err != nil {
+			return err
+		}
+		if workChecksum == art.Checksum {
+			if strat == strategy.LinkStrategy && progress != nil {
+				progress.Increment()
+			}
+			return nil
+		}
+	}
 	switch strat {
 	case strategy.CopyStrategy:
 		srcInfo, err := os.Lstat(cachePath)
